@@ -6,7 +6,11 @@
    Part C  size filter, contiguous relabelling, make_instances
    Part D  group_sample: partition, components, scores, accepted matches
    Part E  matching: the oracle contract, predict_sample, totality, F3
-   Part F  the link to C17 (toposort order => edges_ordered) *)
+   Part F  the link to C17 (toposort order => edges_ordered)
+   Part G  the brute-force reference meets the oracle contract; selector of F3
+   Part H  matrix ranks are peak ranks (round 4, review finding 3)
+   Part I  per-edge optimality of the repaired matching = current tree (finding 2)
+   Part J  accepted connections are listed once (finding 6) *)
 From Coq Require Import List Arith Bool ZArith QArith Qround Lia Permutation.
 Import ListNotations.
 From SV Require Import C17.Toposort C17.Lemmas C08.Grouping.
@@ -1206,7 +1210,8 @@ Proof.
     destruct (V4 p Hp). auto.
 Qed.
 
-(* (f) per-edge optimality, code as it is: the matches are an assignment of
+(* (f) per-edge optimality, PINNED tree (fixed_F3 = false, before fix f3ef4e3; for the
+   current tree see Part I): the matches are an assignment of
    size min(n_src, n_dst) whose total cost (= minus the total line score) is
    finite and minimal among all one-to-one assignments of that size; every match
    carries the (finite) line score of its candidate *)
@@ -1516,7 +1521,7 @@ Proof.
   rewrite (group_sample_value n_nodes edges sorted m mls peaks ms ecs Hg). eauto.
 Qed.
 
-(* the strongest true totality statement for the code as it is: no edge whose
+(* the strongest true totality statement for the pinned tree (before fix f3ef4e3): no edge whose
    NaN entries make the assignment infeasible (complement of selector F3) *)
 Lemma predict_total_partial {P} lsa big n_nodes edges r m mls (peaks : list (nat * P)) scores :
   lsa_contract lsa -> arborescence edges r -> edges_in_range n_nodes edges ->
@@ -1527,7 +1532,7 @@ Proof.
   intros k Hk. apply contract_feasible; auto. apply edge_matrix_rect.
 Qed.
 
-(* F3: the full totality statement is false of the code as it is *)
+(* F3: the full totality statement is false of the pinned tree (before fix f3ef4e3) *)
 Lemma arborescence_01 : arborescence [(0, 1)] 0.
 Proof.
   split; [discriminate|]. split; [constructor; [intros []|constructor]|].
@@ -2058,3 +2063,706 @@ Lemma ex_predict_value :
          [Some (11%Q, 1%Q, (1#2)%Q); Some (12%Q, 2%Q, (1#2)%Q); Some (13%Q, 3%Q, (1#2)%Q)]],
         [(5#8) + ((7#8) + 0); (1#2) + ((3#4) + 0)]%Q).
 Proof. vm_compute. reflexivity. Qed.
+
+From Coq Require Import Lqa.
+
+(* ====================================================================== *)
+(* Part H — matrix ranks are peak ranks (review finding 3)                  *)
+
+Lemma ssorted_ext l1 : forall l2, ssorted l1 -> ssorted l2 -> (forall x, In x l1 <-> In x l2) -> l1 = l2.
+Proof.
+  induction l1 as [|x t IH]; intros [|y u] S1 S2 E; auto.
+  - exfalso. apply (proj2 (E y)). left; reflexivity.
+  - exfalso. apply (proj1 (E x)). left; reflexivity.
+  - inversion S1 as [|? ? Hx St]; subst. inversion S2 as [|? ? Hy Su]; subst.
+    assert (x = y).
+    { destruct (proj1 (E x) (or_introl eq_refl)) as [->|H1]; auto.
+      destruct (proj2 (E y) (or_introl eq_refl)) as [->|H2]; auto.
+      specialize (Hx _ H2). specialize (Hy _ H1). lia. }
+    subst y. f_equal. apply IH; auto. intros z. split; intros Hz.
+    + destruct (proj1 (E z) (or_intror Hz)) as [->|H]; auto. specialize (Hx _ Hz). lia.
+    + destruct (proj2 (E z) (or_intror Hz)) as [->|H]; auto. specialize (Hy _ Hz). lia.
+Qed.
+
+Lemma node_inds_from_ssorted i j chans : ssorted (node_inds_from i j chans).
+Proof.
+  revert i. induction chans as [|c t IH]; simpl; intros i; [constructor|].
+  destruct (c =? j); auto. constructor; auto.
+  intros y Hy. apply node_inds_from_ge in Hy. lia.
+Qed.
+
+(* the i-th peak of node type j (rank i in peaks_of_node) sits at the global
+   position given by the i-th entry of node_inds j *)
+Lemma peaks_of_node_nth_from {P} j (peaks : list (nat * P)) : forall i0 i,
+  match nth_error (peaks_of_node j peaks) i with
+  | Some pl => exists g, nth_error (node_inds_from i0 j (map fst peaks)) i = Some (i0 + g) /\
+                         nth_error peaks g = Some (j, pl)
+  | None => nth_error (node_inds_from i0 j (map fst peaks)) i = None
+  end.
+Proof.
+  unfold peaks_of_node. induction peaks as [|p t IH]; intros i0 i; simpl.
+  - destruct i; reflexivity.
+  - destruct (fst p =? j) eqn:E.
+    + apply Nat.eqb_eq in E. destruct i as [|i]; simpl.
+      * exists 0. rewrite Nat.add_0_r. split; auto. simpl. destruct p; simpl in *; subst; reflexivity.
+      * specialize (IH (S i0) i).
+        destruct (nth_error (map snd (filter (fun p0 => fst p0 =? j) t)) i) as [pl|]; auto.
+        destruct IH as [g [H1 H2]]. exists (S g). split; auto.
+        rewrite H1. f_equal. lia.
+    + specialize (IH (S i0) i).
+      destruct (nth_error (map snd (filter (fun p0 => fst p0 =? j) t)) i) as [pl|]; auto.
+      destruct IH as [g [H1 H2]]. exists (S g). split; auto.
+      rewrite H1. f_equal. lia.
+Qed.
+
+Lemma peaks_of_node_nth {P} j (peaks : list (nat * P)) i pl :
+  nth_error (peaks_of_node j peaks) i = Some pl <->
+  exists g, nth_error (node_inds j (map fst peaks)) i = Some g /\ nth_error peaks g = Some (j, pl).
+Proof.
+  pose proof (peaks_of_node_nth_from j peaks 0 i) as H. unfold node_inds. split.
+  - intros E. rewrite E in H. destruct H as [g [H1 H2]]. exists g. auto.
+  - intros [g [H1 H2]]. destruct (nth_error (peaks_of_node j peaks) i) as [pl'|].
+    + destruct H as [g' [H1' H2']]. rewrite H1 in H1'. inversion H1'; subst g.
+      simpl in H2'. rewrite H2 in H2'. inversion H2'; reflexivity.
+    + rewrite H in H1. discriminate.
+Qed.
+
+(* candidates are pairwise distinct *)
+Lemma NoDup_app_intro {A} (l1 l2 : list A) :
+  NoDup l1 -> NoDup l2 -> (forall x, In x l1 -> ~ In x l2) -> NoDup (l1 ++ l2).
+Proof.
+  induction l1 as [|a t IH]; simpl; intros N1 N2 D; auto.
+  inversion N1; subst. constructor.
+  - rewrite in_app_iff. intros [H|H]; [auto|]. apply (D a); auto.
+  - apply IH; auto.
+Qed.
+
+Lemma NoDup_list_prod {A B} (l1 : list A) (l2 : list B) : NoDup l1 -> NoDup l2 -> NoDup (list_prod l1 l2).
+Proof.
+  induction l1 as [|a t IH]; simpl; intros N1 N2; [constructor|].
+  inversion N1; subst. apply NoDup_app_intro; auto.
+  - apply FinFun.Injective_map_NoDup; auto. intros x y E. inversion E; reflexivity.
+  - intros [x y] Hi1 Hi2. apply in_map_iff in Hi1. destruct Hi1 as [y' [E _]]. inversion E; subst.
+    apply in_prod_iff in Hi2. tauto.
+Qed.
+
+Lemma candidates_NoDup edges chans : NoDup (candidates edges chans).
+Proof.
+  unfold candidates. generalize 0 as s0.
+  induction edges as [|e t IH]; simpl; intros s0; [constructor|].
+  apply NoDup_app_intro; auto.
+  - apply FinFun.Injective_map_NoDup.
+    + intros [a b] [c d] E. simpl in E. inversion E; reflexivity.
+    + apply NoDup_list_prod; apply node_inds_from_NoDup.
+  - intros [[k s] d] H1 H2. apply in_map_iff in H1. destruct H1 as [sd [E _]]. inversion E; subst.
+    apply in_flat_map in H2. destruct H2 as [[k' e'] [H2 H3]]. simpl in H3.
+    apply in_map_iff in H3. destruct H3 as [sd' [E' _]]. inversion E'; subst.
+    apply in_combine_seq in H2. lia.
+Qed.
+
+Lemma combine_fun {A B} (l : list A) : forall (l' : list B) a x x',
+  NoDup l -> In (a, x) (combine l l') -> In (a, x') (combine l l') -> x = x'.
+Proof.
+  induction l as [|y t IH]; intros [|b l'] a x x' N H1 H2; simpl in *; try tauto.
+  inversion N; subst. destruct H1 as [H1|H1], H2 as [H2|H2].
+  - congruence.
+  - inversion H1; subst. apply in_combine_l in H2. contradiction.
+  - inversion H2; subst. apply in_combine_l in H1. contradiction.
+  - eapply IH; eauto.
+Qed.
+
+(* the score the cost matrix reads for (src, dst) is the score listed for THE
+   candidate (k, src, dst) *)
+Lemma sample_find_score {P} edges (peaks : list (nat * P)) scores k s d x :
+  In (k, s, d, x) (sample_cands edges peaks scores) ->
+  find_score s d (edge_cands k (sample_cands edges peaks scores)) = Some x.
+Proof.
+  intros Hin. unfold find_score.
+  destruct (find (fun c => (c_src c =? s) && (c_dst c =? d)) (edge_cands k (sample_cands edges peaks scores)))
+    as [c|] eqn:F.
+  - apply find_some in F. destruct F as [Hc Hb]. apply andb_true_iff in Hb.
+    rewrite !Nat.eqb_eq in Hb. destruct Hb as [Hs Hd].
+    apply edge_cands_in in Hc. destruct Hc as [Hc Hk].
+    destruct c as [[[k' s'] d'] x']. unfold c_src, c_dst, c_edge, c_score in *. simpl in *. subst.
+    f_equal. unfold sample_cands in *. eapply combine_fun; eauto. apply candidates_NoDup.
+  - exfalso. pose proof (find_none _ _ F (k, s, d, x)) as N. simpl in N.
+    unfold c_src, c_dst in N. simpl in N. rewrite !Nat.eqb_refl in N.
+    assert (true = false); [apply N|discriminate]. apply edge_cands_in. split; auto.
+Qed.
+
+Lemma sample_cands_ends {P} edges (peaks : list (nat * P)) scores k u v c :
+  nth_error edges k = Some (u, v) -> In c (edge_cands k (sample_cands edges peaks scores)) ->
+  In (c_src c) (node_inds u (map fst peaks)) /\ In (c_dst c) (node_inds v (map fst peaks)).
+Proof.
+  intros He Hc. destruct c as [[[k0 s] d] x]. apply edge_cands_in in Hc. destruct Hc as [Hc Hk].
+  unfold c_edge in Hk; simpl in Hk; subst k0. apply in_combine_l in Hc.
+  apply candidates_in in Hc. destruct Hc as [u' [v' [H1 [H2 H3]]]].
+  unfold c_src, c_dst; simpl.
+  assert (E : Some (u, v) = Some (u', v')) by (rewrite <- He, <- H1; reflexivity).
+  inversion E; subst. auto.
+Qed.
+
+Lemma sample_cand_exists {P} edges (peaks : list (nat * P)) scores k u v s d :
+  nth_error edges k = Some (u, v) -> length (candidates edges (map fst peaks)) <= length scores ->
+  In s (node_inds u (map fst peaks)) -> In d (node_inds v (map fst peaks)) ->
+  exists x, In (k, s, d, x) (sample_cands edges peaks scores).
+Proof.
+  intros He Hlen Hs Hd.
+  assert (Hc : In (k, s, d) (candidates edges (map fst peaks))) by (apply candidates_in; eauto).
+  destruct (in_combine_exists _ scores _ Hlen Hc) as [x Hx]. exists x. exact Hx.
+Qed.
+
+(* rows of the cost matrix of edge k = (u, v) are the peaks of node u in input
+   order, columns the peaks of node v (when the other side has a peak at all) *)
+Lemma sample_edge_srcs {P} edges (peaks : list (nat * P)) scores k u v :
+  nth_error edges k = Some (u, v) -> length (candidates edges (map fst peaks)) <= length scores ->
+  node_inds v (map fst peaks) <> [] ->
+  edge_srcs k (sample_cands edges peaks scores) = node_inds u (map fst peaks).
+Proof.
+  intros He Hlen Hne. apply ssorted_ext; [apply sort_unique_ssorted|apply node_inds_from_ssorted|].
+  intros s. unfold edge_srcs. rewrite sort_unique_In, in_map_iff. split.
+  - intros [c [<- Hc]]. eapply sample_cands_ends; eauto.
+  - intros Hs. destruct (node_inds v (map fst peaks)) as [|d t] eqn:Ed; [congruence|].
+    destruct (sample_cand_exists edges peaks scores k u v s d He Hlen Hs) as [x Hx]; [rewrite Ed; left; reflexivity|].
+    exists (k, s, d, x). split; auto. apply edge_cands_in. split; auto.
+Qed.
+
+Lemma sample_edge_dsts {P} edges (peaks : list (nat * P)) scores k u v :
+  nth_error edges k = Some (u, v) -> length (candidates edges (map fst peaks)) <= length scores ->
+  node_inds u (map fst peaks) <> [] ->
+  edge_dsts k (sample_cands edges peaks scores) = node_inds v (map fst peaks).
+Proof.
+  intros He Hlen Hne. apply ssorted_ext; [apply sort_unique_ssorted|apply node_inds_from_ssorted|].
+  intros d. unfold edge_dsts. rewrite sort_unique_In, in_map_iff. split.
+  - intros [c [<- Hc]]. eapply sample_cands_ends; eauto.
+  - intros Hd. destruct (node_inds u (map fst peaks)) as [|s t] eqn:Es; [congruence|].
+    destruct (sample_cand_exists edges peaks scores k u v s d He Hlen) as [x Hx]; [rewrite Es; left; reflexivity|auto|].
+    exists (k, s, d, x). split; auto. apply edge_cands_in. split; auto.
+Qed.
+
+Lemma ranks_are_peak_ranks {P} edges (peaks : list (nat * P)) scores k u v :
+  nth_error edges k = Some (u, v) -> length (candidates edges (map fst peaks)) <= length scores ->
+  let cands := sample_cands edges peaks scores in
+  let chans := map fst peaks in
+  (node_inds v chans <> [] -> edge_srcs k cands = node_inds u chans) /\
+  (node_inds u chans <> [] -> edge_dsts k cands = node_inds v chans) /\
+  (node_inds u chans = [] \/ node_inds v chans = [] -> edge_cands k cands = []) /\
+  (forall i j s d, nth_error (node_inds u chans) i = Some s -> nth_error (node_inds v chans) j = Some d ->
+     exists x, In (k, s, d, x) cands /\
+               find_score s d (edge_cands k cands) = Some x /\
+               forall fx big, entry (edge_matrix fx big k cands) i j = cost_entry fx big (Some x)) /\
+  (forall j i pl, nth_error (peaks_of_node j peaks) i = Some pl <->
+                  exists g, nth_error (node_inds j chans) i = Some g /\ nth_error peaks g = Some (j, pl)).
+Proof.
+  intros He Hlen cands chans. split; [|split; [|split; [|split]]].
+  - apply (sample_edge_srcs edges peaks scores k u v He Hlen).
+  - apply (sample_edge_dsts edges peaks scores k u v He Hlen).
+  - intros Hor. destruct (edge_cands k cands) as [|c t] eqn:Ec; auto. exfalso.
+    destruct (sample_cands_ends edges peaks scores k u v c He) as [H1 H2]; [fold cands; rewrite Ec; left; reflexivity|].
+    fold chans in H1, H2. destruct Hor as [E|E]; rewrite E in *; contradiction.
+  - intros i j s d Hs Hd.
+    assert (Hsi : In s (node_inds u chans)) by (eapply nth_error_In; eauto).
+    assert (Hdi : In d (node_inds v chans)) by (eapply nth_error_In; eauto).
+    destruct (sample_cand_exists edges peaks scores k u v s d He Hlen Hsi Hdi) as [x Hx].
+    exists x. split; [exact Hx|]. pose proof (sample_find_score _ _ _ _ _ _ _ Hx) as Hf. split; [exact Hf|].
+    intros fx big.
+    assert (Es : edge_srcs k cands = node_inds u chans).
+    { apply (sample_edge_srcs edges peaks scores k u v He Hlen). fold chans. intros E. rewrite E in Hdi. contradiction. }
+    assert (Ed : edge_dsts k cands = node_inds v chans).
+    { apply (sample_edge_dsts edges peaks scores k u v He Hlen). fold chans. intros E. rewrite E in Hsi. contradiction. }
+    assert (Hi : i < length (edge_srcs k cands)) by (rewrite Es; apply nth_error_Some; congruence).
+    assert (Hj : j < length (edge_dsts k cands)) by (rewrite Ed; apply nth_error_Some; congruence).
+    rewrite entry_edge_matrix by auto. rewrite Es, Ed.
+    replace (nth i (node_inds u chans) 0) with s by (symmetry; apply nth_error_nth; exact Hs).
+    replace (nth j (node_inds v chans) 0) with d by (symmetry; apply nth_error_nth; exact Hd).
+    fold cands in Hf. rewrite Hf. reflexivity.
+  - intros j i pl. apply peaks_of_node_nth.
+Qed.
+
+(* ====================================================================== *)
+(* Part I — per-edge optimality of the REPAIRED matching (review finding 2) *)
+
+(* the score table entry behind cell (i, j) of the cost matrix of edge k:
+   None = no candidate, Some None = NaN, Some (Some x) = finite line score x *)
+Definition sc_at (k : nat) (cands : list cand) (p : nat * nat) : option score :=
+  find_score (nth (fst p) (edge_srcs k cands) 0) (nth (snd p) (edge_dsts k cands) 0) (edge_cands k cands).
+
+(* every (source, destination) pair of the edge has a candidate — what
+   get_connection_candidates produces (sample_cands_complete) *)
+Definition complete_cands (k : nat) (cands : list cand) : Prop :=
+  forall i j, i < length (edge_srcs k cands) -> j < length (edge_dsts k cands) -> sc_at k cands (i, j) <> None.
+
+(* a one-to-one set of (row, column) pairs, of any size *)
+Definition partial_asg (n m : nat) (b : asg) : Prop :=
+  NoDup (map fst b) /\ NoDup (map snd b) /\ forall p, In p b -> fst p < n /\ snd p < m.
+Definition nanfree (k : nat) (cands : list cand) (b : asg) : Prop :=
+  forall p, In p b -> exists x, sc_at k cands p = Some (Some x).
+Definition pscore (k : nat) (cands : list cand) (p : nat * nat) : Q :=
+  match sc_at k cands p with Some (Some x) => x | _ => 0%Q end.
+Definition score_total (k : nat) (cands : list cand) (b : asg) : Q := qsum (map (pscore k cands) b).
+
+(* `big` dominates the score range of the edge *)
+Definition big_dominates (big : Q) (k : nat) (cands : list cand) : Prop :=
+  exists lo hi : Q, (lo <= 0)%Q /\ (0 <= hi)%Q /\
+    (forall c x, In c (edge_cands k cands) -> c_score c = Some x -> (lo <= x)%Q /\ (x <= hi)%Q) /\
+    (inject_Z (Z.of_nat (Nat.min (length (edge_srcs k cands)) (length (edge_dsts k cands)))) * (hi - lo) < big)%Q.
+
+Definition Nq (n : nat) : Q := inject_Z (Z.of_nat n).
+Lemma Nq_S n : (Nq (S n) == Nq n + 1)%Q.
+Proof. unfold Nq. rewrite Nat2Z.inj_succ. unfold Z.succ. rewrite inject_Z_plus. reflexivity. Qed.
+Lemma Nq_add a b : (Nq (a + b) == Nq a + Nq b)%Q.
+Proof. unfold Nq. rewrite Nat2Z.inj_add, inject_Z_plus. reflexivity. Qed.
+Lemma Nq_le a b : a <= b -> (Nq a <= Nq b)%Q.
+Proof. intros H. unfold Nq. rewrite <- Zle_Qle. lia. Qed.
+Lemma Nq_nonneg a : (0 <= Nq a)%Q.
+Proof. apply (Nq_le 0 a). lia. Qed.
+
+(* sums *)
+Lemma qsum_le_len {A} (f : A -> Q) c l : (forall p, In p l -> (f p <= c)%Q) -> (qsum (map f l) <= Nq (length l) * c)%Q.
+Proof.
+  induction l as [|p t IH]; intros H.
+  - simpl. change (Nq 0) with 0%Q. lra.
+  - change (length (p :: t)) with (S (length t)). rewrite Nq_S. simpl.
+    specialize (IH (fun q Hq => H q (or_intror Hq))). specialize (H p (or_introl eq_refl)). nra.
+Qed.
+Lemma qsum_ge_len {A} (f : A -> Q) c l : (forall p, In p l -> (c <= f p)%Q) -> (Nq (length l) * c <= qsum (map f l))%Q.
+Proof.
+  induction l as [|p t IH]; intros H.
+  - simpl. change (Nq 0) with 0%Q. lra.
+  - change (length (p :: t)) with (S (length t)). rewrite Nq_S. simpl.
+    specialize (IH (fun q Hq => H q (or_intror Hq))). specialize (H p (or_introl eq_refl)). nra.
+Qed.
+Lemma qsum_eq_len {A} (f : A -> Q) c l : (forall p, In p l -> (f p == c)%Q) -> (qsum (map f l) == Nq (length l) * c)%Q.
+Proof.
+  induction l as [|p t IH]; intros H.
+  - simpl. change (Nq 0) with 0%Q. lra.
+  - change (length (p :: t)) with (S (length t)). rewrite Nq_S. simpl.
+    specialize (IH (fun q Hq => H q (or_intror Hq))). specialize (H p (or_introl eq_refl)). nra.
+Qed.
+Lemma qsum_opp {A} (f g : A -> Q) l : (forall p, In p l -> (f p == - g p)%Q) -> (qsum (map f l) == - qsum (map g l))%Q.
+Proof.
+  induction l as [|p t IH]; intros H; simpl; [lra|].
+  specialize (IH (fun q Hq => H q (or_intror Hq))). specialize (H p (or_introl eq_refl)). lra.
+Qed.
+Lemma qsum_app l1 l2 : (qsum (l1 ++ l2) == qsum l1 + qsum l2)%Q.
+Proof. induction l1 as [|x t IH]; simpl; [lra|]. rewrite IH. lra. Qed.
+Lemma qsum_filter_split {A} (f : A -> Q) (g : A -> bool) l :
+  (qsum (map f l) == qsum (map f (filter g l)) + qsum (map f (filter (fun x => negb (g x)) l)))%Q.
+Proof.
+  induction l as [|x t IH]; simpl; [lra|]. destruct (g x); simpl; rewrite IH; lra.
+Qed.
+Lemma filter_split_length {A} (g : A -> bool) l :
+  length l = length (filter g l) + length (filter (fun x => negb (g x)) l).
+Proof. induction l as [|x t IH]; simpl; auto. destruct (g x); simpl; lia. Qed.
+
+Local Open Scope Q_scope.
+Lemma arith_card (K Np B X Mn Sk Sb lo hi big ca cb ce : Q) :
+  lo<=0 -> 0<=hi -> Mn*(hi-lo) < big -> K+Np==Mn -> B+X==Mn -> 0<=K -> 0<=X -> 0<=Np -> 0<=B ->
+  ca == -Sk + Np*big -> cb == -Sb -> ce <= X*big -> ca <= cb + ce -> Sk <= K*hi -> B*lo <= Sb -> K+1 <= B -> False.
+Proof.
+  intros.
+  assert (HM : 0 <= Mn) by lra.
+  assert (P0 : 0 <= Mn*(hi-lo)) by (apply Qmult_le_0_compat; lra).
+  assert (P1 : 0 <= (B-K-1)*big) by (apply Qmult_le_0_compat; lra).
+  assert (P2 : 0 <= (Mn-K)*hi) by (apply Qmult_le_0_compat; lra).
+  assert (P3 : 0 <= (Mn-B)*(-lo)) by (apply Qmult_le_0_compat; lra).
+  assert (E1 : Np*big == (Mn-K)*big) by (assert (Np == Mn-K) by lra; rewrite H15; reflexivity).
+  assert (E2 : X*big == (Mn-B)*big) by (assert (X == Mn-B) by lra; rewrite H15; reflexivity).
+  lra.
+Qed.
+Lemma arith_same (K Np B X Mn Sk Sb big ca cb ce : Q) :
+  K+Np==Mn -> B+X==Mn -> 
+  ca == -Sk + Np*big -> cb == -Sb -> ce <= X*big -> ca <= cb + ce -> B == K -> Sb <= Sk.
+Proof.
+  intros.
+  assert (E1 : Np*big == X*big) by (assert (Np == X) by lra; rewrite H6; reflexivity).
+  lra.
+Qed.
+Local Close Scope Q_scope.
+
+(* a one-to-one set of pairs extends to a full assignment of size min(n, m) *)
+Lemma free_index l n : NoDup l -> length l < n -> exists x, x < n /\ ~ In x l.
+Proof.
+  intros ND Hl.
+  destruct (Forall_Exists_dec (fun x => In x l) (fun x => in_dec Nat.eq_dec x l) (seq 0 n)) as [F|E].
+  - exfalso. assert (I : incl (seq 0 n) l) by (intros x Hx; rewrite Forall_forall in F; auto).
+    pose proof (NoDup_incl_length (seq_NoDup n 0) I) as L. rewrite seq_length in L. lia.
+  - apply Exists_exists in E. destruct E as [x [Hx Hn]]. apply in_seq in Hx. exists x. split; [lia|auto].
+Qed.
+
+Lemma partial_asg_length n m b : partial_asg n m b -> length b <= Nat.min n m.
+Proof.
+  intros [N1 [N2 R]].
+  assert (L1 : length (map fst b) <= n).
+  { rewrite <- (seq_length n 0). apply NoDup_incl_length; auto. intros x Hx. apply in_map_iff in Hx.
+    destruct Hx as [p [<- Hp]]. apply in_seq. destruct (R p Hp). lia. }
+  assert (L2 : length (map snd b) <= m).
+  { rewrite <- (seq_length m 0). apply NoDup_incl_length; auto. intros x Hx. apply in_map_iff in Hx.
+    destruct Hx as [p [<- Hp]]. apply in_seq. destruct (R p Hp). lia. }
+  rewrite map_length in L1, L2. lia.
+Qed.
+
+Lemma partial_asg_extend n m : forall d b, partial_asg n m b -> Nat.min n m - length b = d ->
+  exists ext, valid_asg n m (b ++ ext).
+Proof.
+  induction d as [|d IH]; intros b Hb Hd.
+  - exists []. rewrite app_nil_r. destruct Hb as [N1 [N2 R]]. pose proof (partial_asg_length n m b (conj N1 (conj N2 R))).
+    unfold valid_asg. repeat split; auto; try lia; apply R; auto.
+  - destruct Hb as [N1 [N2 R]].
+    destruct (free_index (map fst b) n N1) as [r [Hr Fr]]; [rewrite map_length; lia|].
+    destruct (free_index (map snd b) m N2) as [c [Hc Fc]]; [rewrite map_length; lia|].
+    destruct (IH (b ++ [(r, c)])) as [ext V].
+    + unfold partial_asg. rewrite !map_app. simpl. repeat split.
+      * apply NoDup_app_intro; auto; [constructor; [intros []|constructor]|].
+        intros x Hx [<-|[]]. contradiction.
+      * apply NoDup_app_intro; auto; [constructor; [intros []|constructor]|].
+        intros x Hx [<-|[]]. contradiction.
+      * apply in_app_or in H. destruct H as [H|[<-|[]]]; [apply R; auto|exact Hr].
+      * apply in_app_or in H. destruct H as [H|[<-|[]]]; [apply R; auto|exact Hc].
+    + rewrite app_length. simpl. lia.
+    + exists ((r, c) :: ext). rewrite <- app_assoc in V. exact V.
+Qed.
+
+Section FixedOpt.
+  Variables (big : Q) (k : nat) (cands : list cand).
+  Let n := length (edge_srcs k cands).
+  Let m := length (edge_dsts k cands).
+  Let M := edge_matrix true big k cands.
+  Hypothesis Hcomplete : complete_cands k cands.
+
+  Definition pcost (p : nat * nat) : Q :=
+    match sc_at k cands p with Some (Some x) => (- x)%Q | _ => big end.
+
+  Lemma entry_fixed p : fst p < n -> snd p < m -> entry M (fst p) (snd p) = Some (pcost p).
+  Proof.
+    intros H1 H2. unfold M. rewrite entry_edge_matrix by auto. unfold pcost, sc_at.
+    pose proof (Hcomplete (fst p) (snd p) H1 H2) as Hc. unfold sc_at in Hc. simpl in Hc.
+    destruct (find_score _ _ _) as [[x|]|]; simpl; auto. congruence.
+  Qed.
+
+  Lemma total_fixed a : (forall p, In p a -> fst p < n /\ snd p < m) -> total M a = Some (qsum (map pcost a)).
+  Proof.
+    induction a as [|p t IH]; intros R; simpl; auto.
+    destruct (R p (or_introl eq_refl)) as [R1 R2]. rewrite (entry_fixed p R1 R2).
+    rewrite IH by (intros; apply R; right; auto). reflexivity.
+  Qed.
+
+  Lemma sc_at_in p x : sc_at k cands p = Some (Some x) ->
+    exists c, In c (edge_cands k cands) /\ c_score c = Some x.
+  Proof.
+    unfold sc_at, find_score. destruct (find _ _) as [c|] eqn:F; [|discriminate].
+    intros E. inversion E. apply find_some in F. exists c. tauto.
+  Qed.
+
+  Hypothesis Hdom : big_dominates big k cands.
+
+  Lemma main_ineq a b' :
+    valid_asg n m a ->
+    (forall a' t', valid_asg n m a' -> total M a' = Some t' -> exists t, total M a = Some t /\ Qle t t') ->
+    partial_asg n m b' -> nanfree k cands b' ->
+    let kept := filter (fun p => negb (is_nan_pair (edge_cands k cands) (edge_srcs k cands) (edge_dsts k cands) p)) a in
+    length b' <= length kept /\
+    (length b' = length kept -> (score_total k cands b' <= score_total k cands kept)%Q).
+  Proof.
+    intros V Hmin Hb Hnf kept.
+    destruct Hdom as [lo [hi [Hlo [Hhi [Hrange Hbig]]]]]. fold n m in Hbig.
+    destruct (partial_asg_extend n m _ b' Hb eq_refl) as [ext Vext].
+    destruct V as [V1 [V2 [V3 V4]]].
+    pose proof Vext as [E1 [E2 [E3 E4]]].
+    destruct (Hmin (b' ++ ext) _ Vext (total_fixed _ E4)) as [t [Ta Hle]].
+    rewrite (total_fixed _ V4) in Ta. inversion Ta; subst t. clear Ta.
+    set (isnan := is_nan_pair (edge_cands k cands) (edge_srcs k cands) (edge_dsts k cands)) in *.
+    set (nanp := filter (fun p => negb (negb (isnan p))) a).
+    (* cost of a *)
+    assert (Sa : (qsum (map pcost a) == qsum (map pcost kept) + qsum (map pcost nanp))%Q)
+      by (apply (qsum_filter_split pcost (fun p => negb (isnan p)) a)).
+    assert (Kfin : forall p, In p kept -> exists x, sc_at k cands p = Some (Some x)).
+    { intros p Hp. apply filter_In in Hp. destruct Hp as [Hp Hn]. destruct (V4 p Hp) as [R1 R2].
+      pose proof (Hcomplete _ _ R1 R2) as Hc. unfold isnan, is_nan_pair in Hn. unfold sc_at in *. simpl in *.
+      destruct (find_score _ _ _) as [[x|]|]; [eauto|discriminate|congruence]. }
+    assert (Ck : (qsum (map pcost kept) == - score_total k cands kept)%Q).
+    { apply qsum_opp. intros p Hp. destruct (Kfin p Hp) as [x Hx]. unfold pcost, pscore. rewrite Hx. reflexivity. }
+    assert (Cn : (qsum (map pcost nanp) == Nq (length nanp) * big)%Q).
+    { apply qsum_eq_len. intros p Hp. apply filter_In in Hp. destruct Hp as [Hp Hn]. rewrite negb_involutive in Hn.
+      unfold isnan, is_nan_pair in Hn. unfold pcost, sc_at.
+      destruct (find_score _ _ _) as [[x|]|]; try discriminate. reflexivity. }
+    (* cost of b' ++ ext *)
+    rewrite map_app, qsum_app in Hle.
+    assert (Cb : (qsum (map pcost b') == - score_total k cands b')%Q).
+    { apply qsum_opp. intros p Hp. destruct (Hnf p Hp) as [x Hx]. unfold pcost, pscore. rewrite Hx. reflexivity. }
+    (* bounds on finite scores *)
+    assert (Bnd : forall p x, sc_at k cands p = Some (Some x) -> (lo <= x)%Q /\ (x <= hi)%Q).
+    { intros p x Hx. destruct (sc_at_in p x Hx) as [c [Hc Hs]]. eapply Hrange; eauto. }
+    assert (Sk : (score_total k cands kept <= Nq (length kept) * hi)%Q).
+    { apply qsum_le_len. intros p Hp. destruct (Kfin p Hp) as [x Hx]. unfold pscore. rewrite Hx. eapply Bnd; eauto. }
+    assert (Sb : (Nq (length b') * lo <= score_total k cands b')%Q).
+    { apply qsum_ge_len. intros p Hp. destruct (Hnf p Hp) as [x Hx]. unfold pscore. rewrite Hx. eapply Bnd; eauto. }
+    (* lengths *)
+    assert (La : length a = length kept + length nanp) by (apply (filter_split_length (fun p => negb (isnan p)) a)).
+    rewrite app_length in E3.
+    assert (LaQ : (Nq (length kept) + Nq (length nanp) == Nq (Nat.min n m))%Q) by (rewrite <- Nq_add, <- La, V3; reflexivity).
+    assert (LbQ : (Nq (length b') + Nq (length ext) == Nq (Nat.min n m))%Q) by (rewrite <- Nq_add, E3; reflexivity).
+    pose proof (Nq_nonneg (length kept)) as P1. pose proof (Nq_nonneg (length ext)) as P2.
+    pose proof (Nq_nonneg (length nanp)) as P3. pose proof (Nq_nonneg (length b')) as P4.
+    fold (Nq (Nat.min n m)) in Hbig.
+    (* extension pairs cost at most big (needed only when there is one) *)
+    assert (Cx : (qsum (map pcost ext) <= Nq (length ext) * big)%Q).
+    { apply qsum_le_len. intros p Hp. destruct (E4 p (in_or_app _ _ _ (or_intror Hp))) as [R1 R2].
+      assert (1 <= Nat.min n m) by lia. pose proof (Nq_le _ _ H) as H1. change (Nq 1) with 1%Q in H1.
+      unfold pcost. destruct (sc_at k cands p) as [[x|]|] eqn:Ex; try lra.
+      destruct (Bnd p x Ex) as [B1 B2]. nra. }
+    split.
+    - destruct (le_lt_dec (length b') (length kept)) as [|Hlt]; auto. exfalso.
+      assert (Hq : (Nq (length kept) + 1 <= Nq (length b'))%Q).
+      { rewrite <- Nq_S. apply Nq_le. lia. }
+      eapply (arith_card (Nq (length kept)) (Nq (length nanp)) (Nq (length b')) (Nq (length ext)) (Nq (Nat.min n m))
+                (score_total k cands kept) (score_total k cands b') lo hi big
+                (qsum (map pcost a)) (qsum (map pcost b')) (qsum (map pcost ext))); eauto.
+      rewrite Sa, Ck, Cn. reflexivity.
+    - intros Hlen.
+      eapply (arith_same (Nq (length kept)) (Nq (length nanp)) (Nq (length b')) (Nq (length ext)) (Nq (Nat.min n m))
+                (score_total k cands kept) (score_total k cands b') big
+                (qsum (map pcost a)) (qsum (map pcost b')) (qsum (map pcost ext))); eauto.
+      + rewrite Sa, Ck, Cn. reflexivity.
+      + rewrite Hlen. reflexivity.
+  Qed.
+End FixedOpt.
+
+Lemma Qopp_opp_eq (x : Q) : (- - x)%Q = x.
+Proof. destruct x as [a b]. unfold Qopp. simpl. rewrite Z.opp_involutive. reflexivity. Qed.
+
+Lemma kept_finite k cands a p :
+  complete_cands k cands ->
+  (forall q, In q a -> fst q < length (edge_srcs k cands) /\ snd q < length (edge_dsts k cands)) ->
+  In p (kept_pairs true k cands a) -> exists x, sc_at k cands p = Some (Some x).
+Proof.
+  intros Hc R Hp. unfold kept_pairs in Hp. apply filter_In in Hp. destruct Hp as [Hp Hn].
+  destruct (R p Hp) as [R1 R2]. pose proof (Hc _ _ R1 R2) as Hcc. unfold is_nan_pair in Hn. unfold sc_at in *. simpl in *.
+  destruct (find_score _ _ _) as [[x|]|]; [eauto|discriminate|congruence].
+Qed.
+
+(* (f) for the repaired matching — the code in /repo since f3ef4e3.  NaN entries
+   get the finite placeholder cost `big`, pairs landing on them are discarded.
+   If every (src, dst) pair of the edge has a candidate and `big` dominates the
+   score range, the remaining matches b are a NaN-free one-to-one set such that
+   each match carries the finite line score of its candidate, no NaN-free
+   one-to-one set has more pairs, and none of the same size has a larger total
+   line score. *)
+Lemma match_edge_optimal_fixed lsa big k cands ms :
+  lsa_contract lsa -> match_edge lsa true big k cands = Ok ms ->
+  complete_cands k cands -> big_dominates big k cands ->
+  let n := length (edge_srcs k cands) in
+  let m := length (edge_dsts k cands) in
+  exists b, ms = map (fun p => (k, fst p, snd p, Some (pscore k cands p))) b /\
+    partial_asg n m b /\ nanfree k cands b /\
+    (forall mt, In mt ms -> exists x, m_score mt = Some x /\
+                                      sc_at k cands (m_src mt, m_dst mt) = Some (Some x)) /\
+    (forall b', partial_asg n m b' -> nanfree k cands b' -> length b' <= length b) /\
+    (forall b', partial_asg n m b' -> nanfree k cands b' -> length b' = length b ->
+                (score_total k cands b' <= score_total k cands b)%Q).
+Proof.
+  intros C H Hc Hd n m.
+  destruct (match_edge_spec _ _ _ _ _ _ C H) as [a [La [V Hms]]].
+  pose proof (C _ (edge_matrix_rect true big k cands)) as C1. rewrite La in C1.
+  rewrite edge_matrix_rows, edge_matrix_cols in C1. destruct C1 as [_ [t [T Hmin]]].
+  fold n m in V, Hmin.
+  pose proof V as [V1 [V2 [V3 V4]]].
+  set (b := kept_pairs true k cands a).
+  assert (Kf : nanfree k cands b) by (intros p Hp; eapply kept_finite; eauto).
+  assert (Hms' : ms = map (fun p => (k, fst p, snd p, Some (pscore k cands p))) b).
+  { rewrite Hms. apply map_ext_in. intros p Hp. f_equal.
+    destruct (V4 p (kept_pairs_incl _ _ _ _ _ Hp)) as [R1 R2].
+    rewrite (entry_fixed big k cands Hc p R1 R2). destruct (Kf p Hp) as [x Hx].
+    unfold pcost, pscore. rewrite Hx. simpl. rewrite Qopp_opp_eq. reflexivity. }
+  exists b. split; [exact Hms'|]. split; [|split; [exact Kf|split]].
+  - unfold partial_asg. split; [apply (kept_pairs_nodup fst); auto|].
+    split; [apply (kept_pairs_nodup snd); auto|]. intros p Hp. apply V4. eapply kept_pairs_incl; eauto.
+  - intros mt Hin. rewrite Hms' in Hin. apply in_map_iff in Hin. destruct Hin as [p [<- Hp]].
+    unfold m_score, m_src, m_dst. simpl. destruct (Kf p Hp) as [x Hx]. exists x.
+    destruct p as [i j]. simpl. split; [|exact Hx]. unfold pscore. rewrite Hx. reflexivity.
+  - assert (Hmin' : forall a' t', valid_asg n m a' -> total (edge_matrix true big k cands) a' = Some t' ->
+                      exists t0, total (edge_matrix true big k cands) a = Some t0 /\ Qle t0 t').
+    { intros a' t' Va Ta. exists t. split; auto. eapply Hmin; eauto. }
+    split.
+    + intros b' Pb Nb. apply (main_ineq big k cands Hc Hd a b' V Hmin' Pb Nb).
+    + intros b' Pb Nb. apply (main_ineq big k cands Hc Hd a b' V Hmin' Pb Nb).
+Qed.
+
+(* an edge without NaN scores: the repaired matching IS the unrepaired one (so
+   c08_matches_optimal, stated for fixed_F3 = false, describes it verbatim) *)
+Lemma match_edge_fixed_eq_no_nan lsa big k cands :
+  (forall c, In c (edge_cands k cands) -> c_score c <> None) ->
+  edge_matrix true big k cands = edge_matrix false big k cands /\
+  match_edge lsa true big k cands = match_edge lsa false big k cands.
+Proof.
+  intros Hn.
+  assert (Hf : forall s d, find_score s d (edge_cands k cands) <> Some None).
+  { intros s d. unfold find_score. destruct (find _ _) as [c|] eqn:F; [|discriminate].
+    apply find_some in F. intros E. inversion E as [E']. apply (Hn c); tauto. }
+  assert (EM : edge_matrix true big k cands = edge_matrix false big k cands).
+  { unfold edge_matrix, cost_matrix. apply map_ext. intros s. apply map_ext. intros d.
+    generalize (Hf s d). destruct (find_score s d (edge_cands k cands)) as [[x|]|]; simpl; auto. intros N; exfalso; apply N; reflexivity. }
+  split; auto. unfold match_edge. rewrite EM. destruct (lsa (edge_matrix false big k cands)) as [a|]; auto.
+  f_equal. f_equal. unfold kept_pairs. apply filter_all_true. intros p _. unfold is_nan_pair.
+  generalize (Hf (nth (fst p) (edge_srcs k cands) 0) (nth (snd p) (edge_dsts k cands) 0)).
+  destruct (find_score _ _ _) as [[x|]|]; simpl; auto; intros N; exfalso; apply N; reflexivity.
+Qed.
+
+(* what get_connection_candidates + a long enough score list produce is complete *)
+Lemma sample_cands_complete {P} edges (peaks : list (nat * P)) scores k :
+  length (candidates edges (map fst peaks)) <= length scores ->
+  complete_cands k (sample_cands edges peaks scores).
+Proof.
+  intros Hlen i j Hi Hj. set (cands := sample_cands edges peaks scores) in *. unfold sc_at. simpl.
+  set (s := nth i (edge_srcs k cands) 0). set (d := nth j (edge_dsts k cands) 0).
+  assert (Hs : In s (edge_srcs k cands)) by (apply nth_In; auto).
+  assert (Hd : In d (edge_dsts k cands)) by (apply nth_In; auto).
+  unfold edge_srcs in Hs. apply (proj1 (sort_unique_In _ _)) in Hs. apply in_map_iff in Hs.
+  unfold edge_dsts in Hd. apply (proj1 (sort_unique_In _ _)) in Hd. apply in_map_iff in Hd.
+  destruct Hs as [c1 [Es Hs]]. destruct Hd as [c2 [Ed Hd]].
+  assert (Hk : exists u v, nth_error edges k = Some (u, v)).
+  { destruct c1 as [[[k1 s1] d1] x1]. apply edge_cands_in in Hs. destruct Hs as [Hs Hk1].
+    unfold c_edge in Hk1. simpl in Hk1. subst k1. unfold cands, sample_cands in Hs. apply in_combine_l in Hs.
+    apply candidates_in in Hs. destruct Hs as [u [v [He _]]]. eauto. }
+  destruct Hk as [u [v He]].
+  destruct (sample_cands_ends edges peaks scores k u v c1 He Hs) as [H1 _].
+  destruct (sample_cands_ends edges peaks scores k u v c2 He Hd) as [_ H2].
+  rewrite Es in H1. rewrite Ed in H2.
+  destruct (sample_cand_exists edges peaks scores k u v s d He Hlen H1 H2) as [x Hx].
+  fold cands in Hx. unfold cands. rewrite (sample_find_score _ _ _ _ _ _ _ Hx). discriminate.
+Qed.
+
+(* the boolean evaluated by the harness on every generated edge implies the hypothesis *)
+Lemma qmin0_spec l : (qmin0 l <= 0)%Q /\ forall x, In x l -> (qmin0 l <= x)%Q.
+Proof.
+  induction l as [|y t [I1 I2]]; simpl.
+  - split; [lra|tauto].
+  - destruct (Qle_bool y (qmin0 t)) eqn:E.
+    + apply Qle_bool_iff in E. split; [lra|]. intros x [<-|Hx]; [lra|]. specialize (I2 x Hx). lra.
+    + assert (~ (y <= qmin0 t)%Q) by (rewrite <- Qle_bool_iff; congruence).
+      split; auto. intros x [<-|Hx]; [lra|auto].
+Qed.
+Lemma qmax0_spec l : (0 <= qmax0 l)%Q /\ forall x, In x l -> (x <= qmax0 l)%Q.
+Proof.
+  induction l as [|y t [I1 I2]]; simpl.
+  - split; [lra|tauto].
+  - destruct (Qle_bool (qmax0 t) y) eqn:E.
+    + apply Qle_bool_iff in E. split; [lra|]. intros x [<-|Hx]; [lra|]. specialize (I2 x Hx). lra.
+    + assert (~ (qmax0 t <= y)%Q) by (rewrite <- Qle_bool_iff; congruence).
+      split; auto. intros x [<-|Hx]; [lra|auto].
+Qed.
+
+Lemma big_dominatesb_sound big k cands : big_dominatesb big k cands = true -> big_dominates big k cands.
+Proof.
+  unfold big_dominatesb, score_spread. intros H. apply negb_true_iff in H.
+  set (fs := finite_scores (edge_cands k cands)) in *.
+  destruct (qmin0_spec fs) as [L1 L2]. destruct (qmax0_spec fs) as [U1 U2].
+  exists (qmin0 fs), (qmax0 fs). split; [exact L1|]. split; [exact U1|]. split.
+  - intros c x Hc Hx. assert (Hin : In x fs).
+    { unfold fs, finite_scores. apply in_flat_map. exists c. split; auto. rewrite Hx. left; reflexivity. }
+    split; auto.
+  - apply Qnot_le_lt. rewrite <- Qle_bool_iff. congruence.
+Qed.
+
+(* the whole sample: the matches of every edge of a predict sample are optimal in
+   the sense of match_edge_optimal_fixed *)
+Lemma match_sample_optimal_fixed {P} lsa big edges (peaks : list (nat * P)) scores ms k :
+  lsa_contract lsa -> length (candidates edges (map fst peaks)) <= length scores ->
+  let cands := sample_cands edges peaks scores in
+  match_sample lsa true big (length edges) cands = Ok ms -> k < length edges ->
+  big_dominatesb big k cands = true ->
+  let n := length (edge_srcs k cands) in
+  let m := length (edge_dsts k cands) in
+  exists b, filter (on_edge k) ms = map (fun p => (k, fst p, snd p, Some (pscore k cands p))) b /\
+    partial_asg n m b /\ nanfree k cands b /\
+    (forall mt, In mt (filter (on_edge k) ms) ->
+       exists x, m_score mt = Some x /\ sc_at k cands (m_src mt, m_dst mt) = Some (Some x)) /\
+    (forall b', partial_asg n m b' -> nanfree k cands b' -> length b' <= length b) /\
+    (forall b', partial_asg n m b' -> nanfree k cands b' -> length b' = length b ->
+                (score_total k cands b' <= score_total k cands b)%Q).
+Proof.
+  intros C Hlen cands H Hk Hd n m. unfold match_sample in H.
+  destruct (match_edges_spec _ _ _ _ C _ _ H (seq_NoDup (length edges) 0)) as [_ S2].
+  destruct (S2 k) as [msk [E F]]; [apply in_seq; lia|]. rewrite F.
+  apply (match_edge_optimal_fixed lsa big k cands msk C E).
+  - apply sample_cands_complete; auto.
+  - apply big_dominatesb_sound; auto.
+Qed.
+
+(* --- examples on the evaluated (repaired) variant --------------------------- *)
+(* a NaN pair is dropped, the finite pair is matched *)
+Lemma ex_fixed_nan_dropped_value :
+  match_edge lsa_bf true 1000000 0 [(0,0,2,None);(0,0,3,Some (1#2)%Q);(0,1,2,Some (1#4)%Q);(0,1,3,None)]
+  = Ok [(0,0,1,Some (1#2)%Q);(0,1,0,Some (1#4)%Q)] /\
+  big_dominatesb 1000000 0 [(0,0,2,None);(0,0,3,Some (1#2)%Q);(0,1,2,Some (1#4)%Q);(0,1,3,None)] = true.
+Proof. vm_compute. split; reflexivity. Qed.
+
+(* the domination hypothesis is necessary: a placeholder below the score range
+   loses both finite matches ... *)
+Lemma ex_small_big_loses_value :
+  match_edge lsa_bf true (-10) 0 [(0,0,2,None);(0,0,3,Some (1#2)%Q);(0,1,2,Some (1#2)%Q);(0,1,3,None)] = Ok [] /\
+  big_dominatesb (-10) 0 [(0,0,2,None);(0,0,3,Some (1#2)%Q);(0,1,2,Some (1#2)%Q);(0,1,3,None)] = false.
+Proof. vm_compute. split; reflexivity. Qed.
+
+(* ... and with the code's 1e6 a line score below -1e6 does: the NaN-free pair
+   (0,1) exists but no match is returned (line scores of that size need PAF values
+   around 1e6: outside the stated domain, see notes) *)
+Lemma ex_1e6_not_dominating_value :
+  match_edge lsa_bf true 1000000 0 [(0,0,1,None);(0,0,2,Some (-2000000)%Q)] = Ok [] /\
+  big_dominatesb 1000000 0 [(0,0,1,None);(0,0,2,Some (-2000000)%Q)] = false.
+Proof. vm_compute. split; reflexivity. Qed.
+
+(* --- float min_instance_peaks: the binary64 product, not the exact one -------- *)
+Lemma ex_threshold_06_5_value :
+  threshold (MipFloat (5404319552844595 # 9007199254740992)) 5 = Some 3%Z /\
+  Qfloor ((5404319552844595 # 9007199254740992) * inject_Z 5) = 2%Z.
+Proof. vm_compute. split; reflexivity. Qed.
+Lemma ex_threshold_03_10_value :
+  threshold (MipFloat (5404319552844595 # 18014398509481984)) 10 = Some 3%Z /\
+  Qfloor ((5404319552844595 # 18014398509481984) * inject_Z 10) = 2%Z.
+Proof. vm_compute. split; reflexivity. Qed.
+Lemma ex_threshold_dyadic_value :
+  threshold (MipFloat (1#4)) 6 = Some 1%Z /\ threshold (MipFloat 1) 5 = Some 5%Z /\
+  threshold (MipFloat 0) 5 = None /\ threshold (MipInt 2) 5 = Some 2%Z.
+Proof. vm_compute. repeat split; reflexivity. Qed.
+
+(* the pipeline on the evaluated variant (fixed_F3 = true, big = 1e6): node 1's
+   first peak has only NaN scores towards node 2 (coincident peaks) — the pinned
+   tree raised, the current tree drops the NaN pair and groups the rest *)
+Definition ex_scores_nan_row : list score :=
+  [None; None; Some (3#4)%Q; Some (1#8)%Q;  Some (5#8)%Q; Some 0%Q; Some (1#4)%Q; Some (1#2)%Q].
+Lemma ex_predict_fixed_value :
+  predict_sample lsa_bf true 1000000 3 [(1, 2); (0, 1)] (MipInt 2) (1#4)%Q ex_peaks ex_scores_nan_row
+  = Ok ([[Some (1%Q, 1%Q, 1%Q); Some (2%Q, 2%Q, 1%Q); None];
+         [Some (11%Q, 1%Q, (1#2)%Q); Some (12%Q, 2%Q, (1#2)%Q); Some (3%Q, 3%Q, 1%Q)]],
+        [(5#8)%Q; (10#8)%Q]) /\
+  predict_sample lsa_bf false 1000000 3 [(1, 2); (0, 1)] (MipInt 2) (1#4)%Q ex_peaks ex_scores_nan_row
+  = Err EInfeasible.
+Proof. vm_compute. split; reflexivity. Qed.
+(* ====================================================================== *)
+(* Part J — every accepted connection is listed (and summed) once (review finding 6) *)
+Lemma edges_ordered_tail e es : edges_ordered (e :: es) -> edges_ordered es.
+Proof. intros H l1 e0 l2 E. destruct (H (e :: l1) e0 l2) as [H1 H2]; [rewrite E; reflexivity|].
+  split; auto. intros e' He'. apply H2. right; auto. Qed.
+
+Lemma flatten_NoDup ecs :
+  edges_ordered (map fst ecs) -> (forall e cs, In (e, cs) ecs -> one_to_one cs) -> NoDup (flatten ecs).
+Proof.
+  induction ecs as [|[e cs] t IH]; intros Ho H11; [constructor|].
+  rewrite flatten_cons. apply NoDup_app_intro.
+  - apply FinFun.Injective_map_NoDup; [intros a b E; inversion E; reflexivity|].
+    destruct (H11 e cs (or_introl eq_refl)) as [N _]. eapply NoDup_map_inv; eauto.
+  - apply IH; [eapply edges_ordered_tail; exact Ho|intros; eapply H11; right; eauto].
+  - intros [e' c] H1 H2. apply in_map_iff in H1. destruct H1 as [c0 [E _]]. inversion E; subst e' c0.
+    apply in_flatten in H2. destruct H2 as [cs' [H2 _]].
+    apply in_split in H2. destruct H2 as [t1 [t2 Et]].
+    destruct (Ho ((e :: map fst t1)) e (map fst t2)) as [_ Hb].
+    { simpl. rewrite Et, map_app. reflexivity. }
+    destruct (Hb e (or_introl eq_refl)) as [_ Hne]. apply Hne; reflexivity.
+Qed.
+
+Lemma group_conns_once {P} n_nodes edges sorted mls (peaks : list (nat * P)) ms ecs :
+  group_hyps n_nodes edges sorted mls peaks ms ecs -> NoDup (flatten ecs).
+Proof.
+  intros H. destruct (group_hyps_elim _ _ _ _ _ _ _ H) as [Ho [H11 _]]. apply flatten_NoDup; auto.
+Qed.
